@@ -118,10 +118,93 @@ def cases():
                 yield cls, f"{cls}#{si}@{pos}", src
 
 
+def insertion_sources(src: str, snippet: str):
+    """Every way of inserting ``snippet`` as a statement of its own into the function ``src``: before each line and after
+    each line, at that line's indentation (insertions that do not parse - before an else, between a header and its body -
+    are dropped).  This reaches every suite position, including the unreachable ones behind return / break / continue."""
+    lines = src.rstrip("\n").split("\n")
+    seen = set()
+    for i in range(1, len(lines)):
+        ind = len(lines[i]) - len(lines[i].lstrip(" "))
+        block = textwrap.indent(snippet, " " * ind).split("\n")
+        for at in (i, i + 1):
+            cand = "\n".join(lines[:at] + block + lines[at:]) + "\n"
+            if cand in seen:
+                continue
+            seen.add(cand)
+            try:
+                ast.parse(cand)
+            except SyntaxError:
+                continue
+            yield at, cand
+
+
+# representative constructs for the larger skeleton sets: a simple statement, a compound with a body, a definition
+REPRESENTATIVE = ("Import", "With", "FunctionDef", "Raise")
+
+
+def skeleton_cases(tier: str, k: int = 0, nshards: int = 1):
+    """(class, label, source): unsupported statement x every insertion point of every control skeleton (shard k of nshards,
+    partitioned by skeleton)."""
+    from ..progs import skeleton_sources, chain_sources
+    classes = unsupported_classes()
+    plan = [(1, classes, True)]                       # S(<=1): every class, every variant
+    plan.append((2, [c for c in REPRESENTATIVE if c in classes] if tier == "quick" else classes, False))
+    done = set()
+    for level, clss, variants in plan:
+        for slabel, src in skeleton_sources(level, "marked"):
+            if slabel in done:
+                continue
+            done.add(slabel)
+            if len(done) % nshards != k:
+                continue
+            for cls in clss:
+                snippets = [SNIPPETS[cls]] + (VARIANTS.get(cls, []) if variants else [])
+                for si, snip in enumerate(snippets):
+                    for at, cand in insertion_sources(src, snip):
+                        yield cls, f"{cls}#{si}@{slabel}+{at}", cand
+    if tier != "quick":
+        for j, (slabel, src) in enumerate(chain_sources(3, "marked")):
+            if j % nshards != k:
+                continue
+            for cls in REPRESENTATIVE:
+                if cls in classes:
+                    for at, cand in insertion_sources(src, SNIPPETS[cls]):
+                        yield cls, f"{cls}#0@{slabel}+{at}", cand
+
+
+def _skel_work(args):
+    from numba_scfg.core.datastructures.ast_transforms import AST2SCFG
+    tier, k, nshards = args
+    acc = Acc()
+    for cls, label, src in skeleton_cases(tier, k, nshards):
+        acc.states += 1
+        acc.transitions += 1
+        acc.counters["skeleton_insertions"] += 1
+        try:
+            AST2SCFG(src)
+        except NotImplementedError:
+            acc.outcomes.add((cls, "refused"))
+            continue
+        except Exception as e:  # noqa: BLE001
+            et, site = exc_fingerprint(e)
+            acc.viol(PROP, f"{PROP}/wrong-error/{et}", f"{label}: raised {et} at {site} instead of NotImplementedError",
+                     (src, "AST2SCFG"), site=site, shape=cls, case={"label": label, "source": src, "api": "AST2SCFG", "class": cls})
+            continue
+        acc.viol(PROP, f"{PROP}/accepted", f"{label}: a graph was returned for a function containing a {cls} statement",
+                 (src, "AST2SCFG"), shape=cls, case={"label": label, "source": src, "api": "AST2SCFG", "class": cls})
+    return acc
+
+
 def run(tier: str, seed: int):
     from numba_scfg.core.datastructures.ast_transforms import AST2SCFG, AST2SCFGTransformer
+    from ..kernel import shard_map, ncpu
     acc = Acc()
     n = 0
+    nsh = max(1, ncpu()) * 4
+    for r in shard_map(_skel_work, [(tier, k, nsh) for k in range(nsh)]):
+        acc.merge(r)
+    n += acc.counters["skeleton_insertions"]
     for cls, label, src in cases():
         for api in ("AST2SCFG", "transform_to_ASTCFG", "unpruned"):
             n += 1
@@ -171,8 +254,9 @@ def run(tier: str, seed: int):
         acc.viol(PROP, f"{PROP}/non-function-accepted", f"input `{kind}` accepted", (kind,), shape=kind,
                  case={"label": kind, "source": None, "api": "AST2SCFG", "class": "non-function"})
     cov = {"rule": "every concrete ast.stmt subclass of the running interpreter outside the supported set x snippet variants x structural "
-                   "positions x {AST2SCFG, transform_to_ASTCFG pruned, unpruned}; a state is one (construct, position, entry point) case, a "
-                   "transition one conversion attempt; oracle: NotImplementedError (any exception for non-function input)",
+                   "positions x {AST2SCFG, transform_to_ASTCFG pruned, unpruned}, plus the unsupported statement inserted at EVERY "
+                   "statement position (reachable or not) of every control skeleton S(c); a state is one (construct, position, entry "
+                   "point) case, a transition one conversion attempt; oracle: NotImplementedError (any exception for non-function input)",
            "bounds": {"statement_classes": unsupported_classes(), "positions": list(POSITIONS), "cases": n},
            "exhaustive": True}
     return {"acc": acc, "coverage": cov, "assumptions": ["snippet table is completeness-guarded against the interpreter's ast module"]}
